@@ -121,6 +121,9 @@ class C12(object):
         return {k: desc[k] for k in desc if k != "replay"}
 
     def scene(self, desc):
+        if "vol" in desc:  # explicit scene (minimised replay files)
+            vol = np.array(desc["vol"], np.float32)
+            return "explicit", vol > desc["threshold"], vol, np.array(desc["omegas"], np.float32)
         rnd = random.Random(desc["wseed"])
         g = np.random.default_rng(desc["wseed"])
         nfr, ns, nf = desc["nfr"], desc["ns"], desc["nf"]
@@ -348,6 +351,53 @@ class C12(object):
         return {"digest": enginea.sha(st["digest"], texts, sched.digest() if sched else None),
                 "sig": "pipe/%s/%s/%s" % (enginea.sha(M, vol), desc["nthresh"], sched.sched_sig() if sched else "-"),
                 "nontrivial": nfr >= 2, "viol": viol, "measures": meas}
+
+    def minimise(self, desc, viol, ctx):
+        """make the scene explicit, then drop frames and crop rows / columns while the same violation class persists"""
+        import time as _time
+        if desc.get("tier2"):
+            return desc
+        cls = viol["class"]
+        t_end = _time.time() + 90
+        kind, M, vol, omegas = self.scene(desc)
+        d = dict(desc)
+        d["vol"], d["omegas"] = vol.tolist(), [float(x) for x in omegas]
+
+        def fails(dd):
+            if _time.time() > t_end:
+                return False
+            try:
+                r = self.execute(dd, ctx)
+            except Exception:
+                return False
+            return r["viol"] is not None and r["viol"]["class"] == cls
+        if not fails(d):
+            return desc
+
+        def cut(dd, axis, lo, hi):
+            v = np.array(dd["vol"], np.float32)
+            sl = [slice(None)] * 3
+            sl[axis] = slice(lo, v.shape[axis] - hi)
+            v = v[tuple(sl)]
+            n = dict(dd)
+            n["vol"] = v.tolist()
+            if axis == 0:
+                n["omegas"] = dd["omegas"][lo:len(dd["omegas"]) - hi]
+            n["nfr"], n["ns"], n["nf"] = v.shape
+            return n
+        progress = True
+        while progress:
+            progress = False
+            for axis in (0, 1, 2):
+                for lo, hi in ((0, 1), (1, 0)):
+                    shape = np.array(d["vol"]).shape
+                    if shape[axis] <= (1 if axis == 0 else 2):
+                        continue
+                    cand = cut(d, axis, lo, hi)
+                    if fails(cand):
+                        d = cand
+                        progress = True
+        return d
 
     def compare(self, rows, ref, ncomp, vol, omegas, M):
         def V(cls, detail):
